@@ -10,7 +10,8 @@ is returned; an alphabet shorter than the distinct values fails (a normal return
 the alphabet); no state survives a call and a result belongs to its caller (call sequences in one process against fresh
 processes); the tool writes exactly the text component of the library result for the content of the input file and the option
 values as they were given (representatives on which reordering, de-duplication, case folding, stripping are visible),
-also with output path == input path, and touches nothing when no action is requested.
+on every path and whatever the result is (a new text / the input text itself / the empty text of an empty file; output
+file stale, absent, or the input path itself), and touches nothing when no action is requested.
 
 The pinned-form rules below (statement shapes at the pinned commit) are only the fallback when a function cannot be
 evaluated (a construct outside the supported fragment).
@@ -76,6 +77,21 @@ def check_cli(chk) -> None:
         odd = [k.arg for k in a.keywords if k.arg not in ("help", "metavar", "required", "default") and not (k.arg == "type" and norm(k.value) == "str")]
         if odd and a.args and isinstance(a.args[0], ast.Constant) and a.args[0].value not in ("input", "output"):
             chk.error("cli-wiring", fi.site(a), f"option `{a.args[0].value}` is declared with {', '.join(str(x) + '=' for x in odd)}: what reaches the library for a given text is not decided by the pinned forms (and main could not be evaluated)")
+    # every way out of main except the end of its body: only the 'no action requested' exit (help / usage error) is known to the forms
+    def _blocks(node):
+        for n in ast.walk(node):
+            for field in ("body", "orelse", "finalbody"):
+                b = getattr(n, field, None)
+                if isinstance(b, list) and b and isinstance(b[0], ast.stmt):
+                    yield b
+            if isinstance(n, ast.Try):
+                for h in n.handlers:
+                    yield h.body
+    for block in _blocks(fi.node):
+        for k, st in enumerate(block):
+            leaves = isinstance(st, (ast.Return, ast.Raise)) or (isinstance(st, ast.Expr) and isinstance(st.value, ast.Call) and norm(st.value.func).split(".")[-1] in ("exit", "_exit", "quit", "abort"))
+            if leaves and not (k and isinstance(block[k - 1], ast.Expr) and isinstance(block[k - 1].value, ast.Call) and norm(block[k - 1].value.func).split(".")[-1] in ("print_help", "print_usage", "error")):
+                chk.error("cli-dispatch", fi.site(st), f"main leaves at `{norm(st)[:60]}` on a path the pinned forms do not know: whether the library result is written on every path is not decided (and main could not be evaluated)")
     chk.expect(set(lib) == {"copy_from_to", "replace_value"}, "cli-dispatch", fi.where, "both library functions are reachable from the CLI", "a library function is no longer called by the CLI", K(fi, "dispatch"))
     # option -> parameter wiring
     if "copy_from_to" in lib:
@@ -304,7 +320,8 @@ def run(chk) -> None:
         "representative per class of their input partition in a closed stub world: documents with no block / without the category / without the source item / with '.', '?', quoted and repeated values / a new "
         "target item / a category without rows / a second untouched block; alphabets longer than, exactly as long as and shorter than the number of distinct values; sequences of calls on one text in one process (other source / same source, "
         "other target / identical call, results emptied by the caller) against the same calls in fresh processes; command lines with each option group complete, partial, absent, both, option values not in code-point "
-        "order / with a repeated symbol / with capitals, blanks and punctuation, each with distinct paths and with output path == input path. Stubs: dict file system (buffered writes, truncation at open-for-write, temporary files deleted on close), "
+        "order / with a repeated symbol / with capitals, blanks and punctuation, each with distinct paths (stale output file / output path that does not exist yet) and with output path == input path, and each for every class of the "
+        "library result (a text naming the arguments / the input text itself, as the library returns it when the category or item is missing / the empty text of an empty input file). Stubs: dict file system (buffered writes, truncation at open-for-write, temporary files deleted on close), "
         "IoAdapterPy.readFile/writeFile, data container (replace installs only under an existing name), DataCategory (deep-copying constructor, getValueOrDefault returning the default for '.', '?', None), argparse "
         "(FileType opens while parsing), and for the CLI the library functions as stubs returning a text that names the arguments they received. Every statement of the evaluated functions must be reached by a "
         "representative. The pinned-form rules are only a fallback for a function that cannot be evaluated."
@@ -319,7 +336,7 @@ def run(chk) -> None:
     chk.note_function(fi)
     why = cli_why = _fact_level(chk, c20e.check_cli, fi)
     if why is None:
-        for rule, n in (("cli-eval", 15), ("cli-inplace-eval", 15)):
+        for rule, n in (("cli-eval", 60), ("cli-inplace-eval", 45)):
             chk.floor(rule, n)
     else:
         chk.ok("cli-facts", fi.where, f"fact-level reading of main not possible ({why[:160]}); falling back to the pinned forms")
@@ -351,7 +368,7 @@ MANIFEST_ENTRY = {
     "text": "Static decision on the current source of transformer.py: copy_from_to, replace_value and main are evaluated from their ast (nothing is imported or run) on one representative per class of their inputs in a stub world "
     "(dict file system, model of the mmcif adapter / container / DataCategory, argparse model). Facts decided: a missing block / category / source item returns the input text itself; every row's target becomes its source "
     "('.' and '?' included), a new item is appended, nothing else changes and the written document contains the edit; the first-seen mapping is applied and returned, and a call with an alphabet of too few symbols fails (a normal return "
-    "cannot be an injective mapping into the alphabet); no state survives a call and a result belongs to its caller; the CLI writes exactly the text component of the library result for the content of the input file and the option values as given, also when output and input are the same path, and touches nothing without an action. "
+    "cannot be an injective mapping into the alphabet); no state survives a call and a result belongs to its caller; the CLI writes exactly the text component of the library result for the content of the input file and the option values as given, on every path and whatever that result is (also the unchanged input text), also when output and input are the same path, and touches nothing without an action. "
     "The frame condition and the CLI path are never executed by the suite; here they are facts about every statement of the code (coverage obligation).",
     "note": "Trusted: mmcif library re-serialisation of untouched categories and its list-returning accessors.",
     "technique": "static analysis: whole-function evaluation of the ast on input-class representatives in a stub world (files, mmcif objects, argparse), coverage obligation; pinned-form rules as fallback",
